@@ -7,7 +7,7 @@ VERIF = Path(__file__).resolve().parent.parent
 CLAIMED = {
     "C01": dict(
         text="Machine-checked translation correctness (C01_partial, ~2000 lines of Lean): for EVERY program of the decidable fragment InF (int/bool, + - * // % & | ^, unary minus, abs/min/max, "
-             "comparisons, and/or/not, conditional expressions, assignment, augmented assignment, tuple (parallel) assignment with the transpiler's numbered temporaries, if/elif/else, while, for-range, break, serial write, sleep, prologue + "
+             "comparisons, and/or/not, conditional expressions, assignment, augmented assignment, tuple (parallel) assignment with the transpiler's numbered temporaries, string literals / str() / concatenation / f-strings with serial write of text, if/elif/else, while, for-range, break, serial write, sleep, prologue + "
              "main loop) and EVERY N, if the transpiler model accepts, the C semantics of the emitted program produces exactly CPython's trace, or hits C int overflow (UB), "
              "or evaluates a / or % with a negative operand (the strict reading stops there with signedDiv: that is exactly where the emitted C division differs from Python's floor division, "
              "known findings K01b/K01c, refuted by machine-checked witnesses on the raw reading; strict_run_is_raw_run relates the two); the operator tables _BIN/_UN/_CMP are regenerated "
@@ -29,9 +29,9 @@ CLAIMED = {
              "witnesses (incl. K02e: max(1.5, 2.25) declared int). Ties: declared C++ types in the emission vs declareT; model Python store vs CPython; model C++ store vs compiled firmware; mergeReturn vs emitted "
              "return types. Oracle: firmware-printed values vs CPython on block-structured scripts incl. every order of 2-3 differently-typed assignments at top level / "
              "in a branch / in a loop, helper functions rebinding their parameters.",
-        note="Trusted: Lean kernel (propext, Classical.choice, Quot.sound); exact field arithmetic in theorems, float32/64 rounding only through the ties; calls of user helper functions, lists and str() "
-             "are outside the expression model (tie + oracle only) — partial; mock core + host g++. Known findings K02a (first assignment fixes the type, wider later "
-             "values narrowed), K02b (int / int), K02c (and/or value), K02d (-bool), K02e (abs/min/max typed int whatever the arguments).",
+        note="Trusted: Lean kernel (propext, Classical.choice, Quot.sound); exact field arithmetic in theorems, float32/64 rounding only through the ties; user helper functions are modelled in structured, non-recursive form (TypesFun: variants per call signature, locals, return join — call_preserves_value, variants_sound, no_return_narrowed; "
+             "three machine-checked witnesses = known finding K02g); recursion, lists and str() are outside the models (tie + oracle only) — partial; mock core + host g++. Known findings K02a (first assignment fixes the type, wider later "
+             "values narrowed), K02b (int / int), K02c (and/or value), K02d (-bool), K02e (abs/min/max typed int whatever the arguments), K02f (loop-hoisted local takes a stale type), K02g (helper parameters typed by their last assignment / all-int parse re-used).",
         technique="Lean 4 simulation proof (Python vs C++ typed evaluation under the parser's declarations, induction on expressions and paths) + declared-type, CPython and firmware correspondence + value oracle", ref="4/C02"),
     "C03": dict(
         text="Lean theorems: (a) the transpile-time evaluator is monotone in the constant environment — a value folded from partial knowledge is the value under EVERY "
@@ -61,7 +61,7 @@ CLAIMED = {
              "for every program whose devices are declared before the main loop or at the top of its body, every use is preceded by its configuration; the prologue's "
              "statements run once and in source order; each pass starts with exactly one poll per button and then the body in order; nothing is configured inside "
              "loop(); a second, pin-level model (AssemblePins: which pin gets which mode where, names re-bound to other pins, per device kind) proves for every documented program and every N that each pin event is "
-             "preceded by a configuration of that pin, that no pin gets two modes, and that a device re-bound at the top of the loop body has its new pins configured in setup(); plus (from C01) the split preserves the event sequence of `setup(); loop()×N` for every N and a `break` bound to the main loop is always refused. "
+             "preceded by a configuration of that pin, that no pin gets two modes, that a device re-bound at the top of the loop body has its new pins configured in setup(), and that every pass starts with exactly one poll per button and one tick per animation started before the loop, in the code's order, before any user event (housekeeping_once_per_pass; K18a as loop_started_animation_not_ticked_counterexample); plus (from C01) the split preserves the event sequence of `setup(); loop()×N` for every N and a `break` bound to the main loop is always refused. "
              "Model tied to the compiled sketch (order of use/marker/poll events over N passes) on random device sets; temporal monitors on the real trace "
              "(configure-before-use per pin/peripheral, no re-configuration, poll placement, break guard under random nestings).",
         note="Trusted: Lean kernel (propext, Classical.choice, Quot.sound); the harness builds each script together with its item abstraction; mock core + host g++. "
@@ -85,11 +85,13 @@ CLAIMED = {
              "comment lines indented like the following code, trailing comments on non-continuation lines and any scaling of the indentation unit never change the block "
              "forest (all scripts); on scripts whose headers are all recognised the forest equals Python's. Model tied to the real parser's IR nesting on generated "
              "scripts and their re-layouts; oracle: a script and its re-layout must emit identical text, and every source line must be translated, rejected or benign "
-             "(the guarded hook records every silently skipped line).",
-        note="Trusted: Lean kernel (propext, Classical.choice, Quot.sound); regular expressions are modelled by equivalent string functions (agreement checked by the tie, "
+             "(the guarded hook records every silently skipped line). TRANSLATOR TIE: `_indent_of`, `_strip_inline_comment` and `_collect_block` are "
+             "translated from the Python source to Lean on every run (harness/pytolean.py) and proved equal to the model's functions for ALL inputs (gen_indentOf, gen_stripInlineComment, gen_collectBlock), so the character/line-level "
+             "theorems are re-checked against what the code says now; a source outside the translatable subset breaks the named obligation and the oracle searches for a failing input.",
+        note="Trusted: Lean kernel (propext, Classical.choice, Quot.sound); the translator harness/pytolean.py (small documented subset of Python); regular expressions are modelled by equivalent string functions (agreement checked by the tie, "
              "not proved); the hook (aaec20d) reports skipped lines. Proved counterexamples / known findings K07a (comments on headers and dedented comment lines move "
              "statements between blocks) and K07b (unrecognised statements silently dropped).",
-        technique="Lean 4 theorems over a character-level layout model (induction over line lists, fuel independence) + model/parser block-tree correspondence + re-layout oracle", ref="4/C07"),
+        technique="Lean 4 theorems over a character-level layout model (induction over line lists, fuel independence) + source-to-Lean translation of three parser functions with all-inputs equality proofs + model/parser block-tree correspondence + re-layout oracle", ref="4/C07"),
     "C08": dict(
         text="One Lean obligation per constructor/method/Core helper (44 callables) over tables REGENERATED from the source on every run — the host signature "
              "(inspect.signature) and the transpiler's behaviour on every call shape (rejects? which provided values fail to reach the generated code?) — checked by "
@@ -192,9 +194,10 @@ CLAIMED = {
     "C20": dict(
         text="Lean theorems: Core pins refine a per-pin memory (read-your-writes through any interleaving, 7 = '7', clamp, pull-up, non-interference), Utils.map is the affine map "
              "and raises iff zero span, sleep(ms) passes ms/1000 once and refuses negatives, Button clicks = rising edges, sensor/serial specs. Model tied to the real modules by "
-             "differential runs; the laws are evaluated on the real modules.",
-        note="Trusted: Lean kernel (propext, Classical.choice, Quot.sound); tie H; ASCII pin names; str(value) is a parameter of the serial model.",
-        technique="Lean 4 refinement/induction proofs + model/implementation correspondence (H)", ref="4/C20"),
+             "differential runs; the laws are evaluated on the real modules. TRANSLATOR TIE: `Utils.map` and the guard/value of `Utils.sleep` are translated from the Python source to Lean on every run and proved equal to the model for all inputs "
+             "and every arithmetic carrier (gen_map, gen_sleep).",
+        note="Trusted: Lean kernel (propext, Classical.choice, Quot.sound); tie H; the translator harness/pytolean.py; ASCII pin names; str(value) is a parameter of the serial model.",
+        technique="Lean 4 refinement/induction proofs + source-to-Lean translation of Utils.map/sleep with equality proofs + model/implementation correspondence (H)", ref="4/C20"),
 }
 
 PENDING_REASON = "check under construction in this build session (model and tie not yet committed); will be claimed when its Lean theorems and correspondence run clean"
